@@ -152,6 +152,8 @@ def main(run):
         for b12 in (0, 1):
             n = (4 if w == "32" else 3) if quick else (5 if w in ("2", "32") else 4)
             add(G.rpd_exhaustive(w, b12, G.REQ_ALPHABET, n), "request-exhaustive")
+    for b12 in (0, 1):
+        add(G.rpd_exhaustive("32", b12, G.MGMT_ALPHABET, 4 if quick else 5), "recipient-mgmt-exhaustive")
     add(G.sst_exhaustive(5 if quick else 7), "sender-exhaustive")
     for b12 in (0, 1):
         add(G.rpx_exhaustive("32", b12, G.RPX_ALPHABET, 4 if quick else 5), "dualrole-exhaustive")
@@ -192,7 +194,8 @@ def main(run):
         if co.startswith("CRASH"):
             fails = ["the driver crashed (%s)" % co]
         spec_diff = False
-        if ln.startswith("rpd") and not fails and "NOGEN" not in co and spec.get(i) != "-":
+        if (ln.startswith("rpd") and not fails and "NOGEN" not in co and spec.get(i) != "-"
+                and not any(x[0] in "+-" for x in ln.split()[5:])):
             sv = [o.split(",")[0] for o in co.split()]
             toks = [x.lstrip("2") for x in ln.split()[5:]]
             # A tokens (allocation failure somewhere): only "not delivered" is compared
